@@ -62,6 +62,8 @@ func TestC08(t *testing.T) {
 		fr.cleanup()
 	}
 	c08Concurrent(run)
+	c08Undeletable(run)
+	c08WriteFaults(run)
 	c08Crash(run)
 }
 
